@@ -30,5 +30,6 @@ def run(ctx):
     D.r05_2_dispatch(ctx, 'R05.2')
     R.r05_3_pairs(ctx)
     R.r05_7_defaults(ctx)
+    R.r05_8_hook_symmetry(ctx)
     H.r14_4_matches_total(ctx, 'R05.5')
     H.r15_4_no_node_twice(ctx, 'R05.6')
